@@ -15,7 +15,8 @@ import GEVerif.Model.Labels
 import GEVerif.Model.Linear
 import GEVerif.Model.TreeOps
 
-namespace GEVerif
+namespace GEVerif.WellTyped
+open GEVerif
 
 /-! ### Well-formed type expressions -/
 
@@ -683,16 +684,16 @@ structure GWF (g : Grammar) : Prop where
   alts : altsWF g
   fields : ∀ n, fieldsWF [] (g.cls n).fields = true
 
-theorem Sym.eq_of_beq' (a b : Sym) (h : (a == b) = true) : a = b := by
+theorem sym_eq_of_beq (a b : Sym) (h : (a == b) = true) : a = b := by
   cases a <;> cases b <;> simp_all [BEq.beq, instBEqSym.beq]
 
-theorem Sym.mem_of_contains (l : List Sym) (x : Sym) (h : l.contains x = true) : x ∈ l := by
+theorem sym_mem_of_contains (l : List Sym) (x : Sym) (h : l.contains x = true) : x ∈ l := by
   induction l with
   | nil => simp at h
   | cons a l ih =>
     rw [List.contains_cons, Bool.or_eq_true] at h
     rcases h with h | h
-    · rw [Sym.eq_of_beq' x a h]; exact List.mem_cons_self
+    · rw [sym_eq_of_beq x a h]; exact List.mem_cons_self
     · exact List.mem_cons_of_mem _ (ih h)
 
 theorem GWF_of_grammarWF (g : Grammar) (h : grammarWF g = true) : GWF g := by
@@ -700,7 +701,7 @@ theorem GWF_of_grammarWF (g : Grammar) (h : grammarWF g = true) : GWF g := by
   obtain ⟨⟨h1, h2⟩, h3⟩ := h
   refine ⟨?_, ?_, ?_⟩
   · intro n hn ha
-    have := h1 (.cls n) (Sym.mem_of_contains _ _ hn)
+    have := h1 (.cls n) (sym_mem_of_contains _ _ hn)
     simp only [ha, Option.isSome_none, Bool.false_or, Bool.not_eq_true'] at this
     exact this
   · intro n ps ha
@@ -1518,11 +1519,11 @@ def exGWT : Grammar := analyse exSpecWT
 
 def exStWT (ds : List Nat) : SynSt := { src := .scripted { draws := ds } }
 
-def Res.isOk {α : Type} : Res α → Bool
+def resIsOk {α : Type} : Res α → Bool
   | .ok _ _ => true
   | .err _ _ => false
 
-theorem Res.isOk_iff {α : Type} (r : Res α) : r.isOk = true ↔ ∃ a s, r = .ok a s := by
-  cases r <;> simp [Res.isOk]
+theorem resIsOk_iff {α : Type} (r : Res α) : resIsOk r = true ↔ ∃ a s, r = .ok a s := by
+  cases r <;> simp [resIsOk]
 
-end GEVerif
+end GEVerif.WellTyped
